@@ -70,17 +70,23 @@ struct Gen {
     std::vector<long> used;
     for (int i = 0; i < nl; i++) {
       Recipe r; int tries = 0; std::shared_ptr<Link> l;
-      do { r = pool_recipe(c.master, g.below(pool), many_ch); if (p_bs64 > 0 && g.chance(p_bs64)) { r.bs64 = 1; r.sig = g.chance(0.75) ? 6 : 1; r.n = std::max<int64_t>(r.n, 3000); } l = get_link(r); } while ((!l->ok || l->ref_err || r.n * r.ch > budget) && ++tries < 20);
+      do { r = pool_recipe(c.master, g.below(pool), many_ch); if (p_bs64 > 0 && g.chance(p_bs64)) { r.bs64 = 1; r.cut = 0; r.sig = g.chance(0.75) ? 6 : 1; r.n = std::max<int64_t>(r.n, 3000); } l = get_link(r); } while ((!l->ok || l->ref_err || r.n * r.ch > budget) && ++tries < 20);
       if (!l->ok || l->ref_err) continue;
       budget -= r.n * r.ch; if (budget < 2000) budget = 2000;
       Rec &lr = p.add("link"); r.to(lr);
       int pol = (int)g.below(6); int k = pol == 1 ? (int)g.range(1, 12) : pol == 4 ? (int)g.range(1, 6) : pol == 5 ? (int)g.range(200, 3000) : 4;
+      if (r.bs64) { if (g.chance(0.75)) { pol = 1; k = (int)g.range(2, 8); } else { pol = g.chance(0.5) ? 0 : 3; k = 4; } }   // the rewritten link is only consistent when its first two audio packets share a page
       long serial; do { serial = (long)g.below(1 << 30) - (g.chance(0.1) ? (1 << 29) : 0); } while (std::find(used.begin(), used.end(), serial) != used.end());
       used.push_back(serial);
       lr.set("pol", pol).set("k", k).set("serial", serial);
       if (g.chance(0.06) && (prop == "C10" || prop == "C03" || prop == "C13" || prop == "C09")) lr.set("foreign", 1).set("fserial", serial ^ 0x5a5a5);
     }
     build_stream(p, sr);
+    if (sr.ambiguous_cut) {   // a cut link must keep at least two audio pages, otherwise its start offset is undefined (see StreamRef::ambiguous_cut)
+      int li = 0;
+      for (auto &r : p.recs) if (r.type == "link") { int ap = 0; for (auto &pg : sr.ps.pages) if (pg.link == li && !pg.header) ap++; if (r.i("cut") && ap < 2) r.erase("cut"); if (r.i("bs64") && ap < 2) { r.set("pol", 1); r.set("k", 2); } li++; }
+      build_stream(p, sr);
+    }
     pktb.clear();
     for (int i = 0; i < sr.nlinks; i++) { int64_t acc = sr.start[i]; for (int cchunk : sr.ps.links[i]->chunk) { acc += cchunk; if (cchunk) pktb.push_back(acc); } }
   }
